@@ -1464,11 +1464,15 @@ def run_(chk, replay=None):
                     "lake env lean <#print axioms for every theorem>",
         rule="generator: one evaluation = one request line (stream / save / load / roundtrip / sup / between / mixed) "
              "answered by the compiled code and by the Lean model, compared verbatim; whole runs: one evaluation = one "
-             "process, transcripts of processes with equal arguments must be byte-identical; distinct = distinct request "
-             "line or distinct (configuration, seed, build, environment)",
+             "process, transcripts of processes with equal arguments must be byte-identical, the two executions of an "
+             "in-process repetition must have identical canonical transcripts, the restarts of one checkpoint identical "
+             "continuations (= the uninterrupted run where the checkpoint is the whole state); distinct = distinct request "
+             "line or distinct (configuration, seed, build, mode, environment)",
         trusted=["Lean 4.33 kernel", "tools/translate_rng.py + cxx2lean.py (clang-14 JSON AST -> operand lists)",
                  "Vita.C07.Model: iostream extraction/insertion of std::uint64_t in the classic locale (no sign, no "
                  "grouping)", "Vita.Common.Rng: UInt64 = std::uint64_t wrap-around arithmetic; libstdc++ 12 "
                  "uniform_int_distribution (Lemire) for sup/between",
                  "whole-run determinism is VALIDATED by transcript comparison (partial), not proved",
+                 "harness/c07_run.cc: canonical (name-based) transcript; mirror of evolution::run for checkpoint / "
+                 "restart (checked against the real run on every chain); valgrind 3.x memcheck",
                  "g++ 12.2, ASan/UBSan, glibc malloc tunables for heap perturbation"])
